@@ -61,6 +61,26 @@ def cursor_of(test):
     return None, 0
 
 
+def cursor_in_body(node):
+    """for a loop whose guard is a counter (`while depth > 0`, `while p`): the local variable that
+    the body uses as index of check_token / peek_token and moves itself"""
+    moved = {t.id for x in ast.walk(node) for t in ([x.target] if isinstance(x, ast.AugAssign) else
+                                                    x.targets if isinstance(x, ast.Assign) else [])
+             if isinstance(t, ast.Name)}
+    count = {}
+    for st in node.body:
+        for x in ast.walk(st):
+            if isinstance(x, ast.Call) and isinstance(x.func, ast.Attribute) and x.func.attr in CURSOR_CALLS and x.args:
+                a = x.args[0]
+                if isinstance(a, ast.BinOp) and isinstance(a.left, ast.Name):
+                    a = a.left
+                if isinstance(a, ast.Name) and a.id in moved:
+                    count[a.id] = count.get(a.id, 0) + 1
+    if not count:
+        return None
+    return max(sorted(count), key=lambda k: count[k])
+
+
 def direction(node, cur):
     dec = inc = False
     for x in ast.walk(node):
@@ -179,8 +199,16 @@ def analyse(E, site):
     node, fn, cls = site["node"], site["fn"], site["cls"]
     cur, off = cursor_of(node.test)
     name = site["name"]
+    counter_guard = False
     if cur is None:
-        return [(name, "skipped", {"reason": "the guard does not read the token cursor", "guard": ast.unparse(node.test)[:120]})]
+        cur, off = cursor_in_body(node), 0
+        counter_guard = True
+        if cur is not None and any(isinstance(x, ast.Name) and x.id == cur for x in ast.walk(node.test)):
+            return [(name, "skipped", {"reason": "the guard compares the cursor with a bound (no counter, no token test)",
+                                       "guard": ast.unparse(node.test)[:120]})]
+        if cur is None:
+            return [(name, "skipped", {"reason": "neither the guard nor the body reads the token list through a cursor the "
+                                                 "loop moves", "guard": ast.unparse(node.test)[:120]})]
     dirn = direction(node, cur)
     results = []
     fref = FuncRef(site["file"], f"{cls.name}.{fn.name}", fn, ClassRef(site["file"], cls.name, cls))
@@ -295,6 +323,18 @@ def analyse(E, site):
                     for s3, fl in E.exec_block(node.body, s2):
                         if fl[0] in ("next", "continue"):
                             pend.append(s3)
+            if counter_guard:
+                # the guard is a counter: past the end of the input nothing can change it any more,
+                # so an iteration that neither leaves nor makes the guard false repeats for ever
+                again = []
+                for s3 in pend:
+                    for s4, g in E.ev(node.test, s3):
+                        if isinstance(g, Raised):
+                            continue
+                        for s5, b in E.split(s4, truth(g, s4)):
+                            if b:
+                                again.append(s5)
+                pend = again
             ok = True
             for s3 in pend:
                 sv = z3.Solver()
@@ -309,6 +349,8 @@ def analyse(E, site):
                             {"cursor": cur, "direction": dirn, "guard": ast.unparse(node.test)[:100]}))
         finally:
             E.current_func.pop()
+        if counter_guard:
+            return results          # progress of a counter loop is its exit at the end of the input
         # ---- progress
         st, fr, ctx = fresh_state()
         st.frames.append(fr)
